@@ -42,6 +42,48 @@ pub proof fn lemma_first_idx_unique(p: Seq<u8>, c: u8, i: int)
     if k < i { assert(p[k] == c); assert(p[k] != c); }
     if k > i { assert(p[i] != c); }
 }
+pub proof fn lemma_split_no_slash(p: Seq<u8>)
+    requires no_slash(p)
+    ensures split(p) =~= seq![p]
+{
+    lemma_first_idx_unique(p, 47u8, p.len() as int);
+}
+/// splitting at the LAST '/': split(p) = split(p[..i]) ++ [p[i+1..]]
+pub proof fn lemma_split_last(p: Seq<u8>, i: int)
+    requires 0 <= i < p.len(), p[i] == 47u8, forall|j: int| i < j < p.len() ==> p[j] != 47u8
+    ensures split(p) =~= split(p.subrange(0, i)).push(p.subrange(i + 1, p.len() as int))
+    decreases p.len()
+{
+    lemma_first_idx(p, 47u8);
+    let f = first_idx(p, 47u8);
+    let n = p.len() as int;
+    if f > i { assert(p[i] != 47u8); }
+    let q = p.subrange(0, i);
+    let suffix = p.subrange(i + 1, n);
+    if f == i {
+        assert(no_slash(q));
+        assert(no_slash(suffix));
+        lemma_split_no_slash(q);
+        lemma_split_no_slash(suffix);
+        assert(p.subrange(0, f) =~= q);
+        assert(p.subrange(f + 1, n) =~= suffix);
+        assert(split(p) =~= seq![q] + split(suffix));
+    } else {
+        let p2 = p.subrange(f + 1, n);
+        assert(p2[i - f - 1] == p[i]);
+        assert forall|j: int| i - f - 1 < j < p2.len() implies p2[j] != 47u8 by { assert(p2[j] == p[j + f + 1]); }
+        lemma_split_last(p2, i - f - 1);
+        assert(q[f] == 47u8);
+        assert forall|j: int| 0 <= j < f implies q[j] != 47u8 by { assert(q[j] == p[j]); }
+        lemma_first_idx_unique(q, 47u8, f);
+        assert(q.subrange(f + 1, i) =~= p2.subrange(0, i - f - 1));
+        assert(q.subrange(0, f) =~= p.subrange(0, f));
+        assert(p2.subrange(i - f, p2.len() as int) =~= suffix);
+        assert(split(q) =~= seq![p.subrange(0, f)] + split(p2.subrange(0, i - f - 1)));
+        assert(split(p) =~= seq![p.subrange(0, f)] + split(p2));
+    }
+}
+pub open spec fn cv(q: Seq<OsString>) -> Seq<Seq<u8>> { q.map_values(|s: OsString| s@) }
 pub open spec fn opt_osstr_view(o: Option<&OsStr>) -> Seq<Seq<u8>> {
     match o { None => Seq::<Seq<u8>>::empty(), Some(p) => split(p@) }
 }
